@@ -368,6 +368,10 @@ def units(tier):
     _wrap(us, "C12.cvode.CVHandleNFlag_flags", CV.unit_handle_nflag)
     _wrap(us, "C12.cvode.step_completed_only_after_its_error_test_passed", CV.unit_step)
     _wrap(us, "C12.cvode.CVRestore_undoes_CVPredict", CV.unit_restore)
+    _wrap(us, "C12.cvode.CVode_returns_the_state_at_tout", CV.unit_cvode_exit)
+    _wrap(us, "C12.cvode.CVodeDky_horner", CV.unit_dky)
+    _wrap(us, "C12.cvode.newton_iteration_converged_iff_dcon<=1", CV.unit_newton)
+    _wrap(us, "C12.cvode.rescale_and_complete_step", CV.unit_rescale_complete)
     return us
 
 
